@@ -697,12 +697,13 @@ func TryReplay(p *Program, o *Obligation, opts SolveOpts) map[string]any {
 		st, inf, ok := buildStream(o, r)
 		info = inf
 		if !ok {
-			res["reason"] = "no candidate model (the quantifier-free weakening is not satisfiable within the limit)"
-			return res
+			// no model to build a stream from (the obligation is quantified): the hostile portfolio is still worth running
+			st = []byte("+OK\r\n")
+			info = map[string]any{"note": "no candidate model (the quantifier-free weakening is not satisfiable within the limit); hostile portfolio only"}
 		}
 		var hostile []string
 		for _, h := range []string{"$9223372036854775807\r\nabc\r\n", "$9223372036854775806\r\nabc\r\n", "*2\r\n$3\r\nGET\r\n$9223372036854775807\r\nk\r\n",
-			"*9223372036854775807\r\n", "*1048577\r\n", "$536870913\r\n", "*2\r\n$3\r\nGET\r\n", "*1\r\n*1\r\n$1", "$5\r\nhello\r", "$5\r\nhelloXY", "$-2\r\n", "*-1\r\n", "$abc\r\n",
+			"*9223372036854775807\r\n", "*1048577\r\n", "$536870913\r\n", "*2\r\n$3\r\nGET\r\n", "*1\r\n*1\r\n$1", "$5\r\nhello\r", "$5\r\nhelloXY", "$-2\r\n", "*-1\r\n", "$abc\r\n", "*-2\r\n", "*-9223372036854775808\r\n", "*1\r\n*-3\r\n", "*\r\n", "$\r\n", ":\r\n", "\r\n", "*1", "$1", "$0\r\n", "$0", "*1\r\n",
 			"*3\r\n$3\r\nSET\r\n$1\r\nk\r\n$5\r\nhello\r\n*1\r\n$4\r\nPING\r\n", "+OK\r\n:12\r\n-ERR x\r\n$0\r\n\r\n$-1\r\n*0\r\n", "?x\r\n"} {
 			hostile = append(hostile, hex.EncodeToString([]byte(h)))
 		}
